@@ -136,7 +136,8 @@ func (x *Exec) execInstr(fr *Frame, st *State, ins ssa.Instruction) {
 		n := x.val(fr, t.Len).(VInt).T
 		cp := x.val(fr, t.Cap).(VInt).T
 		x.oblige(st, "safe:make", "len", x.siteOf(fr, ins), "make: 0 <= len <= cap",
-			c.And(c.Le(c.Int(0), n), c.Le(n, cp), c.Le(cp, c.Pow2(47))))
+			c.And(c.Le(c.Int(0), n), c.Le(n, cp)))
+		x.assume(st, c.Le(cp, c.Pow2(47))) // A-MEM: allocations fit in memory
 		elem := t.Type().Underlying().(*types.Slice).Elem()
 		arr := x.newArray(st, elem, true)
 		fr.env[t] = VSlice{arr, c.Int(0), n, cp}
@@ -367,7 +368,7 @@ func (x *Exec) indexAddr(fr *Frame, st *State, t *ssa.IndexAddr) Val {
 	case VSlice:
 		elem := t.X.Type().Underlying().(*types.Slice).Elem()
 		x.oblige(st, "safe:index", "index", site, "index in range", c.InRange(idx, c.Int(0), b.Len))
-		return VPtr{Kind: PElem, Arr: b.Arr, Idx: c.Add(b.Off, idx), Elem: elem}
+		return VPtr{Kind: PElem, Arr: b.Arr, Idx: x.slot(b.Off, idx), Elem: elem}
 	case VPtr:
 		if b.Kind == PArray {
 			x.oblige(st, "safe:index", "index", site, "array index in range", c.InRange(idx, c.Int(0), c.Int(b.N)))
